@@ -70,6 +70,7 @@ type ReplayFile struct {
 	Trace     []string            `json:"trace_tail,omitempty"`
 	TapeLen   map[string]int      `json:"tape_lengths,omitempty"`
 	Flavour   string              `json:"flavour,omitempty"`
+	RaceSig   string              `json:"race_signature,omitempty"`
 }
 
 type Finding struct {
@@ -111,7 +112,8 @@ func build(dir, flavour string) string {
 	run("go1.26.8", "build", "-o", inst, "./tools/instrument")
 	ov := filepath.Join(dir, "ov-"+flavour)
 	os.RemoveAll(ov)
-	run(inst, "-repo", repo, "-zsimrt", filepath.Join(verif, "zsimrt"), "-out", ov)
+	iargs := []string{"-repo", repo, "-zsimrt", filepath.Join(verif, "zsimrt"), "-out", ov}
+	run(inst, iargs...)
 	bin := filepath.Join(dir, "sim-"+flavour+".test")
 	args := []string{"test", "-c", "-vet=off", "-overlay", filepath.Join(ov, "overlay.json")}
 	switch flavour {
@@ -174,6 +176,9 @@ func seed() uint64 {
 // runWorkers runs a scenario on N worker processes for a wall budget.
 func runWorkers(bin string, sc scnSpec, sd uint64, budget time.Duration, tmp string) ([]RunLine, error) {
 	n := workerCount()
+	if sc.Flavour == "race" && os.Getenv("VERIF_WORKERS") == "" {
+		n = 6 // each race worker runs its goroutines on 4 Ps
+	}
 	var wg sync.WaitGroup
 	lines := make([][]RunLine, n)
 	errs := make([]error, n)
@@ -216,7 +221,8 @@ func runWorkers(bin string, sc scnSpec, sd uint64, budget time.Duration, tmp str
 				}
 				cmd.Env = append(os.Environ(), "GODEBUG=asyncpreemptoff=1")
 				if sc.Flavour == "race" {
-					cmd.Env = append(os.Environ(), "GORACE=halt_on_error=0 exitcode=0 log_path="+filepath.Join(tmp, fmt.Sprintf("race-%d", w)))
+					lp := filepath.Join(tmp, fmt.Sprintf("race-%d-%d", w, attempt))
+					cmd.Env = append(os.Environ(), "GOMAXPROCS=4", "VERIF_RACELOG="+lp, "GORACE=halt_on_error=0 exitcode=0 history_size=3 log_path="+lp)
 				}
 				ob, err := cmd.CombinedOutput()
 				ls, rerr := readLines(out)
@@ -383,12 +389,26 @@ func replayOnce(bin string, rf *ReplayFile, tmp string, trace bool) (*RunLine, e
 	sort.Strings(params)
 	cmd := exec.Command(bin, "-test.run", "^TestSim$", "-test.timeout", "0", "-sim.scenario="+rf.Scenario, "-sim.replay="+f.Name(), "-sim.out="+out, "-sim.params="+strings.Join(params, ","))
 	cmd.Env = append(os.Environ(), "GODEBUG=asyncpreemptoff=1")
+	if rf.Flavour == "race" {
+		lp := f.Name() + ".race"
+		cmd.Args = append(cmd.Args, "-sim.parallel")
+		cmd.Env = append(os.Environ(), "GOMAXPROCS=4", "VERIF_RACELOG="+lp, "GORACE=halt_on_error=0 exitcode=0 history_size=3 log_path="+lp)
+	}
 	ob, err := cmd.CombinedOutput()
 	ls, _ := readLines(out)
 	if len(ls) == 0 {
 		return nil, fmt.Errorf("replay produced no result: %v\n%s", err, tail(string(ob), 2000))
 	}
 	return &ls[0], nil
+}
+
+// raceSig extracts the access-site pair from a data-race violation message.
+func raceSig(msg string) string {
+	l := firstLine(msg)
+	if i := strings.Index(l, ": "); i >= 0 {
+		l = l[i+2:]
+	}
+	return l
 }
 
 func hasRule(l *RunLine, prop, rule string) *Violation {
@@ -725,7 +745,14 @@ func cmdCheck(prop, tier string) int {
 			}
 			continue
 		}
+		if f.v.Property == "SIM" && f.v.Rule == "harness-race" {
+			fmt.Fprintf(os.Stderr, "runner: data race inside the harness (scenario %s seed=%d run=%d): %s\n", f.sc.Name, sd, f.l.Run, f.v.Msg)
+			return 2
+		}
 		key := f.v.Property + "/" + f.v.Rule
+		if f.v.Rule == "data-race" {
+			key += "/" + raceSig(f.v.Msg)
+		}
 		if seen[key] {
 			continue
 		}
@@ -769,7 +796,11 @@ func cmdCheck(prop, tier string) int {
 			}
 			rf.TapeLen[k] = nz
 		}
-		h := sha1.Sum([]byte(fmt.Sprintf("%s|%s|%d|%d|%v", rf.Property, rf.Rule, rf.Seed, rf.Run, rf.Tape)))
+		if f.sc.Flavour == "race" {
+			rf.Tape = nil // replay is by seed: the program and the fault plan are the same, the overlap is up to the real scheduler
+			rf.RaceSig = raceSig(f.v.Msg)
+		}
+		h := sha1.Sum([]byte(fmt.Sprintf("%s|%s|%d|%d|%v|%s", rf.Property, rf.Rule, rf.Seed, rf.Run, rf.Tape, rf.RaceSig)))
 		path := filepath.Join(verif, "replays", fmt.Sprintf("%s-%s-%x.json", rf.Property, sanitize(rf.Rule), h[:5]))
 		b, _ := json.MarshalIndent(rf, "", " ")
 		os.WriteFile(path, b, 0o644)
@@ -908,6 +939,25 @@ func cmdReplay(path string) int {
 		fl = "plain"
 	}
 	bin := build(tmp, fl)
+	if fl == "race" {
+		// same seed = same program and fault plan; whether the two accesses
+		// overlap is decided by the real scheduler: up to 20 attempts, and only
+		// the same pair of access sites counts as a reproduction
+		for attempt := 1; attempt <= 20; attempt++ {
+			l, err := replayOnce(bin, &rf, tmp, false)
+			if err != nil {
+				die(2, "%v", err)
+			}
+			for _, v := range l.Violations {
+				if v.Property == rf.Property && v.Rule == rf.Rule && raceSig(v.Msg) == rf.RaceSig {
+					fmt.Printf("VIOLATION property=%s replay=%s\n  rule=%s attempt=%d: %s\n", rf.Property, path, v.Rule, attempt, v.Msg)
+					return 1
+				}
+			}
+		}
+		fmt.Printf("replay of %s did not reproduce the race %s in 20 attempts\n", path, rf.RaceSig)
+		return 0
+	}
 	l, err := replayOnce(bin, &rf, tmp, true)
 	if err != nil {
 		die(2, "%v", err)
